@@ -18,6 +18,7 @@ Proof.
     repeat match goal with
     | |- context [live_at vs ?i] => destruct (live_at vs i) as [?d|] eqn:?; cbn [option_map]
     | |- context [dead_at vs ?i] => destruct (dead_at vs i) eqn:?
+    | |- context [throws ?v] => destruct (throws v) eqn:?
     | |- context [Nat.ltb ?a nalt] => destruct (Nat.ltb a nalt) eqn:?
     | |- context [tag ?d] => is_var d; destruct d as [[?tg|] ?elt]; cbn [tag vv abs_var]
     | |- context [tag_eqb (Some ?a) (Some ?b)] => cbn [tag_eqb]; destruct (Nat.eqb a b) eqn:?
@@ -120,6 +121,7 @@ Ltac split_cases vs nalt :=
     repeat match goal with
     | |- context [live_at vs ?i] => destruct (live_at vs i) as [?d|] eqn:?
     | |- context [dead_at vs ?i] => let E := fresh "Hd" in destruct (dead_at vs i) eqn:E; [pose proof (dead_live _ _ E)|]
+    | |- context [throws ?v] => destruct (throws v) eqn:?
     | |- context [Nat.ltb ?a nalt] => destruct (Nat.ltb a nalt) eqn:?
     | |- context [tag ?d] => is_var d; destruct d as [[?tg|] ?elt]; cbn [tag vv has_tag andb]
     | |- context [has_tag ?d] => is_var d; destruct d as [[?tg|] ?elt]; cbn [tag vv has_tag andb]
